@@ -59,9 +59,10 @@ BGVals == [ key    : {"registered", "other_issuer", "unregistered"},
             jti    : {"fresh", "absent"},
             jtiopt : BOOLEAN,
             scope  : {"covered", "not_covered", "none"},
-            client : {"none", "authenticated"} ]
+            client : {"none", "authenticated"},
+            form   : {"normal", "empty_assertion", "garbage_assertion"} ]
 BGGood == [key |-> "registered", kid |-> "right", who |-> "registered", aud |-> "token_url", exp |-> "future", nbf |-> "absent",
-           iat |-> "present", iatopt |-> FALSE, jti |-> "fresh", jtiopt |-> FALSE, scope |-> "covered", client |-> "none"]
+           iat |-> "present", iatopt |-> FALSE, jti |-> "fresh", jtiopt |-> FALSE, scope |-> "covered", client |-> "none", form |-> "normal"]
 BGFields == DOMAIN BGGood
 BGDev(r) == Cardinality({f \in BGFields : r[f] # BGGood[f]})
 BGAccept(r) ==
@@ -71,6 +72,7 @@ BGAccept(r) ==
   /\ (r.iat = "present" \/ r.iatopt)
   /\ (r.jti = "fresh" \/ r.jtiopt)
   /\ r.scope \in {"covered", "none"}
+  /\ r.form = "normal"
 BGRows == { [tbl |-> "BG", f |-> r, accept |-> BGAccept(r)] : r \in {x \in BGVals : BGDev(x) <= MaxDev} }
 
 ASSUME CAAccept(CAGood) /\ BGAccept(BGGood)
